@@ -198,6 +198,13 @@ def check_schema(run, decls, r, tag):
                 for msig in {ms for ms, _ in muxed.values()}:
                     # cantools refuses frames whose multiplexer value selects no signal at all
                     vals[dbc_name(msig)] = vals[dbc_name(msig)] % max(c for ms, c in muxed.values() if ms == msig)
+
+                def present(nm, depth=0):
+                    # a multiplexed signal is in the frame iff its selector is, and holds one of its ids (selectors chain)
+                    if nm not in muxed or depth > 8:
+                        return True
+                    msig, cnt = muxed[nm]
+                    return present(dbc_name(msig), depth + 1) and vals.get(dbc_name(msig)) in range(cnt)
                 data = canpack.pack(leaves, vals, m["length"])
                 case_f = dict(case_m, values=vals, frame=data)
                 try:
@@ -207,10 +214,8 @@ def check_schema(run, decls, r, tag):
                     return
                 expect = {}
                 for nm in vals:
-                    if nm in muxed:
-                        msig, cnt = muxed[nm]
-                        if vals.get(dbc_name(msig)) not in range(cnt):
-                            continue
+                    if not present(nm):
+                        continue
                     expect[nm] = vals[nm]
                 bad = [nm for nm in expect if nm not in dec or not same_num(dec[nm], expect[nm])] + [nm for nm in dec if nm not in expect]
                 if bad:
@@ -234,6 +239,9 @@ def check_schema(run, decls, r, tag):
                 flags.append("big")
             if muxed:
                 flags.append("mux")
+                if any(ms in muxed or dbc_name(ms) in muxed for ms, _ in muxed.values()):
+                    flags.append("chained-mux")
+                    run.count("messages_with_chained_multiplexing")
             if any(l[3][0] in ("f32", "f64") for l in leaves):
                 flags.append("float")
             if d["name"]:
